@@ -197,3 +197,34 @@ def compile_harness(name, config, backend, srcs=None, extra_flags=None, cxx=None
 if __name__ == "__main__":
     for cfg in sys.argv[1:] or ["optim", "debug"]:
         print(cfg, ensure(cfg))
+
+
+def compile_fuzz_target(name, backend="nayuki-portable"):
+    """libFuzzer target harness/fuzz/<name>.cpp against the clang 'fuzz' build (ASan, no AVX2 inline asm)."""
+    libdir = ensure("fuzz")
+    src = os.path.join(HARNESS_DIR, "fuzz", name + ".cpp")
+    deps = [src] + sorted(os.path.join(HARNESS_DIR, f) for f in os.listdir(HARNESS_DIR) if f.endswith((".hpp", ".cpp")))
+    key = _file_hash(deps + _headers(), "fuzz")
+    odir = os.path.join(BUILD_ROOT, "harness", "fuzz")
+    os.makedirs(odir, exist_ok=True)
+    exe = os.path.join(odir, "%s-%s" % (name, key))
+    lockf = open(os.path.join(odir, name + ".lock"), "w")
+    fcntl.flock(lockf, fcntl.LOCK_EX)
+    try:
+        if not os.path.exists(exe):
+            for old in os.listdir(odir):
+                if old.startswith(name + "-"):
+                    os.unlink(os.path.join(odir, old))
+            cmd = ["clang++", "-std=gnu++17", "-g", "-O1", "-fsanitize=fuzzer,address", "-I", os.path.join(REPO, "src", "include"), "-I", HARNESS_DIR,
+                   src, "-o", exe + ".tmp", "-L", libdir, "-ltfhe-" + backend, "-Wl,-rpath," + libdir, "-lrapidcheck", "-pthread"]
+            r = subprocess.run(cmd, stdout=subprocess.PIPE, stderr=subprocess.STDOUT, text=True)
+            if r.returncode != 0:
+                raise RuntimeError("fuzz target compile failed (%s):\n%s" % (name, r.stdout[-4000:]))
+            os.rename(exe + ".tmp", exe)
+        else:
+            # relink is unnecessary: the library is found through rpath at run time
+            pass
+    finally:
+        fcntl.flock(lockf, fcntl.LOCK_UN)
+        lockf.close()
+    return exe
